@@ -1,1 +1,60 @@
-From QV Require Import Base Fields SrcFacts Msg Decoder Encoder.
+(* Properties_C03.v — decoding arbitrary bytes is memory-safe, terminating and self-contained. *)
+From QV Require Import Base Fields SrcFacts Msg Decoder DecoderSafety.
+Local Open Scope N_scope.
+
+(* For every buffer content, every length up to 65535 and every start offset, none of the three decoder
+   entry points performs a raw read at an index >= length (Fault) and the fuel "length + 1" for both the
+   label loop and the pointer-hop recursion is never exhausted (OutOfFuel): each run takes at most
+   (length+1) hops of at most (length+1) label steps. *)
+Theorem C03_name_total mem len off acc : len <= 65535 -> safe (parse_name mem len (FUEL len) off acc).
+Proof. intro H. exact (parse_name_safe mem len H off acc). Qed.
+Print Assumptions C03_name_total.
+
+Theorem C03_record_total mem len off r0 : len <= 65535 -> safe (parse_record mem len (FUEL len) off r0).
+Proof. intro H. exact (parse_record_safe mem len H off r0). Qed.
+Print Assumptions C03_record_total.
+
+Theorem C03_message_total mem len : len <= 65535 -> safe (from_packet mem len (FUEL len)).
+Proof. intro H. exact (from_packet_safe mem len H). Qed.
+Print Assumptions C03_message_total.
+
+(* the result is determined solely by the bytes inside the buffer *)
+Theorem C03_self_contained mem1 mem2 len fuel :
+  (forall i, i < len -> mem1 i = mem2 i) ->
+  from_packet mem1 len fuel = from_packet mem2 len fuel /\
+  (forall off r0, parse_record mem1 len fuel off r0 = parse_record mem2 len fuel off r0) /\
+  (forall off acc, parse_name mem1 len fuel off acc = parse_name mem2 len fuel off acc).
+Proof.
+  intro H. split; [exact (from_packet_ext mem1 mem2 len H fuel)|].
+  split; [intros; exact (parse_record_ext mem1 mem2 len H fuel off r0)|intros; exact (parse_name_ext mem1 mem2 len H fuel off acc)].
+Qed.
+Print Assumptions C03_self_contained.
+
+(* compression pointers are followed only strictly backwards: below the name's first byte, then below the
+   previous target (the continuation that follows a pointer is never invoked at or above the bound) *)
+Theorem C03_pointers_strictly_backwards mem len lf k1 k2 off offEnd offPtr acc :
+  (forall no oe a, no < offPtr -> k1 no oe no a = k2 no oe no a) ->
+  labels mem len lf k1 off offEnd offPtr acc = labels mem len lf k2 off offEnd offPtr acc.
+Proof. exact (labels_pointer_bound mem len lf k1 k2 off offEnd offPtr acc). Qed.
+Print Assumptions C03_pointers_strictly_backwards.
+
+Theorem C03_forward_pointer_rejected mem len fuel off acc b b2 :
+  off + 1 < len -> mem off = b -> mem (off + 1) = b2 -> b <> 0 ->
+  N.land b label_kind_mask = label_kind_pointer -> label_kind_pointer <> label_kind_plain ->
+  off <= w16 (N.lor (N.shiftl (N.ldiff b pointer_clear_mask) pointer_shift) b2) ->
+  len <= 65535 -> parse_name mem len (S fuel) off acc = Fail.
+Proof. exact (forward_pointer_rejected mem len fuel off acc b b2). Qed.
+Print Assumptions C03_forward_pointer_rejected.
+
+Theorem C03_reserved_label_rejected mem len fuel off acc b :
+  off < len -> mem off = b -> b <> 0 ->
+  N.land b label_kind_mask <> label_kind_plain -> N.land b label_kind_mask <> label_kind_pointer ->
+  len <= 65535 -> parse_name mem len (S fuel) off acc = Fail.
+Proof. exact (reserved_label_rejected mem len fuel off acc b). Qed.
+Print Assumptions C03_reserved_label_rejected.
+
+(* non-vacuity: a two-pointer loop and a self pointer are rejected, a backward pointer is followed *)
+Example C03_examples :
+  decode_name [192; 2; 192; 0]%N 0 = Fail /\ decode_name [192; 0]%N 0 = Fail /\
+  decode_name [1; 97; 0; 192; 0]%N 3 = Ok (Some [97; 46]%N, 5) /\ decode_name [64; 0]%N 0 = Fail.
+Proof. vm_compute. auto. Qed.
